@@ -10,6 +10,7 @@ they say under the automaton construction the code performs (e), and the
 bookkeeping each rule depends on is updated on every path (f).
 """
 import ast
+import os
 from collections import OrderedDict
 
 from ..core import AnalysisError, const_str, dotted, norm, short, subscript_key
@@ -121,6 +122,7 @@ def check(repo, tier="quick"):
     res.rule("C01.e", "level ordering patterns: symbols are parse-code names, admit sequence_header first, and implemented language = reference language")
     res.rule("C01.f", "bookkeeping the rules depend on is updated on every normal path (offsets, picture numbers, fragment counters, level matcher)")
     res.rule("C01.i", "raster order of fragment slices: FragmentSlicesNotContiguous is raised exactly when the coded (x, y) offset of a fragment's first slice differs, coordinate by coordinate, from (received % slices_x, received // slices_x); a comparison of the raster index y*slices_x + x alone also accepts x >= slices_x")
+    res.rule("C01.j", "every level can be satisfied: for each level of level_constraints.csv, some column's allowed major_version values include a version that the minimality rule (assert_major_version_is_minimal: the version must equal the largest implication logged) can produce for the column's profile -- max(profile implication, r) with r ranging over the literal results of the profile-independent implication functions; otherwise no stream at that level is ever accepted")
     res.rule("C01.g", "the evaluation of each structure check depends only on its documented applicability conditions (control-dependence signature within the allowed set)")
 
     sf = analyses.validator_stateflow(repo)
@@ -138,6 +140,8 @@ def check(repo, tier="quick"):
     from .c07 import version_logging_rule
 
     version_logging_rule(repo, res, "C01.f")
+    rule_j(repo, res)
+    res.floor("C01.j", 8)
     from .. import lints as _lints
 
     _lints.rule(repo, res, "C01.h", ['decoder.stream', 'decoder.fragment_syntax', 'decoder.assertions', 'decoder.sequence_header', 'decoder.picture_syntax', 'decoder.transform_data_syntax', 'decoder.io', 'pseudocode.state'])
@@ -709,3 +713,98 @@ def _guards_chain(node, top):
                 out.append((p.test, False))
         c, p = p, getattr(p, "_parent", None)
     return out
+
+
+def rule_j(repo, res):
+    import csv
+    import io
+
+    vm = repo.mod("version_constraints")
+    minimum = None
+    for s_ in vm.tree.body:
+        if isinstance(s_, ast.Assign) and dotted(s_.targets[0]) == "MINIMUM_MAJOR_VERSION" and isinstance(s_.value, ast.Constant):
+            minimum = s_.value.value
+    if not isinstance(minimum, int):
+        raise AnalysisError("version_constraints.MINIMUM_MAJOR_VERSION not found")
+
+    def returns_of(fn):
+        out = set()
+        for r in ast.walk(fn):
+            if isinstance(r, ast.Return):
+                if isinstance(r.value, ast.Constant) and isinstance(r.value.value, int):
+                    out.add(r.value.value)
+                elif dotted(r.value) == "MINIMUM_MAJOR_VERSION":
+                    out.add(minimum)
+                else:
+                    raise AnalysisError("%s returns a non-literal version: %s" % (fn.name, short(r.value, 40)))
+        return out
+
+    indep = set()
+    n_impl = 0
+    for fname, fn in vm.funcs.items():
+        if fname.endswith("_version_implication") and fname != "profile_version_implication":
+            indep |= returns_of(fn)
+            n_impl += 1
+    pf = vm.funcs.get("profile_version_implication")
+    if pf is None or n_impl < 6:
+        raise AnalysisError("version implication functions not found (%d)" % n_impl)
+    # profile -> implication: `if profile == Profiles.X: return N` arms, else the default
+    prof_impl = {}
+    default = None
+    for n in ast.walk(pf):
+        if isinstance(n, ast.If) and isinstance(n.test, ast.Compare) and isinstance(n.test.ops[0], ast.Eq) and (dotted(n.test.comparators[0]) or "").startswith("Profiles."):
+            rs = [r for r in n.body if isinstance(r, ast.Return)]
+            if rs and isinstance(rs[0].value, ast.Constant):
+                prof_impl[dotted(n.test.comparators[0]).split(".")[1]] = rs[0].value.value
+            for r in n.orelse:
+                if isinstance(r, ast.Return):
+                    default = minimum if dotted(r.value) == "MINIMUM_MAJOR_VERSION" else getattr(r.value, "value", None)
+    if default is None:
+        raise AnalysisError("profile_version_implication: default arm not recognised")
+    profiles = repo.ext.enums.get("Profiles")
+    if not profiles:
+        raise AnalysisError("vc2_data_tables.Profiles not found")
+    by_value = dict((v, k) for k, v in profiles.items())
+    # the level table
+    path = os.path.join(repo.pkgroot, "level_constraints.csv")
+    rows = {}
+    with open(path, encoding="utf-8") as f:
+        for row in csv.reader(f):
+            if row and row[0] in ("level", "profile", "major_version"):
+                cells = []
+                for c in row[1:]:
+                    c = c.strip()
+                    cells.append(cells[-1] if c == '"' and cells else c)
+                rows[row[0]] = cells
+    if set(rows) != {"level", "profile", "major_version"}:
+        raise AnalysisError("level_constraints.csv: level/profile/major_version rows not found")
+
+    def ints(cell):
+        """None for 'any'; else the set of ints of a cell of values and ranges"""
+        if cell.lower() == "any":
+            return None
+        out = set()
+        for part in cell.split(","):
+            part = part.strip()
+            if not part:
+                continue
+            if "-" in part:
+                a, b = part.split("-", 1)
+                out.update(range(int(a), int(b) + 1))
+            else:
+                out.add(int(part))
+        return out
+
+    ok_levels, all_levels = set(), []
+    for lv, pr, mv in zip(rows["level"], rows["profile"], rows["major_version"]):
+        for level in sorted(ints(lv) or []):
+            if level not in all_levels:
+                all_levels.append(level)
+            pset = ints(pr)
+            pnames = list(profiles) if pset is None else [by_value[p] for p in pset if p in by_value]
+            achievable = set(max(prof_impl.get(pn, default), r) for pn in pnames for r in indep)
+            allowed = ints(mv)
+            if allowed is None or achievable & allowed:
+                ok_levels.add(level)
+    for level in all_levels:
+        res.check(level in ok_levels, "C01.j", "level:%d" % level, "vc2_conformance/level_constraints.csv", "no column of level %d allows a major_version that the minimality rule can produce for the column's profile (profile implications %s, other implications %s): every stream declaring level %d is rejected, with ValueNotAllowedInLevel or with MajorVersionTooHigh" % (level, dict(prof_impl, **{"<other>": default}), sorted(indep), level), by="some column allows an achievable version")
